@@ -17,6 +17,7 @@ class Model(object):
         self.counters = {}
         self.dups = {}             # key requested by the id spec -> keys of the features filed under '<key>_n' because of it
         self.ever = set()          # every key ever stored (freshness monitor)
+        self.manual = set()        # relation rows added by hand (add_relation)
 
     def clone(self):
         return copy.deepcopy(self)
@@ -119,6 +120,7 @@ class Model(object):
     def add_relation(self, parent, child, level, parent_edit=None, child_edit=None):
         """parent_edit/child_edit: {"cols": {...}, "attrs": [[k, [v]], ...]} written back by the caller's hook functions."""
         self.rels.add((parent, child, level))
+        self.manual.add((parent, child, level))
         for key, edit in ((parent, parent_edit), (child, child_edit)):
             if edit:
                 f = self.feats[key]
